@@ -3,7 +3,8 @@
 import json, os
 ROOT = os.path.dirname(os.path.dirname(os.path.abspath(__file__)))
 TB = ("Trusted: Coq 8.16.1 kernel + vm_compute (no native_compute), std++/stdlib, the harness exporters and case "
-      "generators, CPython semantics as modelled; floats are embedded as exact rationals. ")
+      "generators, CPython semantics as modelled; floats are embedded as exact rationals. The thorough tier also runs coqchk -o over the property's compiled "
+      "theorems and everything they depend on (an obligation: only the standard library's axioms, no type-in-type / unsafe fixpoint / assumed positivity). ")
 CHECKS = {
  "C01": dict(
    text="Machine-checked invariant over all histories: Theorem C01_all_histories (induction over operation lists of the "
